@@ -335,8 +335,34 @@ func ruleDBCodecColumn(c *Ctx, prefix, col string, w ssa.Value, wc string, targe
 	}
 	var parsers []string
 	var direct []string
+	// uses of a loaded column value, followed into helpers that receive it as an argument
+	var uses []ssa.Instruction
+	seenV := map[ssa.Value]bool{}
+	var follow func(v ssa.Value, depth int)
+	follow = func(v ssa.Value, depth int) {
+		if seenV[v] || depth > 3 || v.Referrers() == nil {
+			return
+		}
+		seenV[v] = true
+		for _, u := range *v.Referrers() {
+			uses = append(uses, u)
+			if call, ok := u.(*ssa.Call); ok {
+				if f := call.Call.StaticCallee(); f != nil && len(f.Blocks) > 0 && defaultInline(loader, f) {
+					for i, a := range call.Call.Args {
+						if a == v && i < len(f.Params) {
+							follow(f.Params[i], depth+1)
+						}
+					}
+				}
+			}
+		}
+	}
 	for _, ld := range loads {
-		for _, u := range *ld.Referrers() {
+		follow(ld, 0)
+	}
+	isLoad := func(v ssa.Value) bool { return seenV[v] }
+	{
+		for _, u := range uses {
 			switch x := u.(type) {
 			case *ssa.Call:
 				if f := x.Call.StaticCallee(); f != nil {
@@ -347,7 +373,7 @@ func ruleDBCodecColumn(c *Ctx, prefix, col string, w ssa.Value, wc string, targe
 					direct = append(direct, fieldName(fa))
 				}
 			case *ssa.MapUpdate:
-				if x.Key == ssa.Value(ld) {
+				if isLoad(x.Key) {
 					direct = append(direct, "<map key>")
 				}
 			}
